@@ -805,6 +805,13 @@ func scenarios() [][]op {
 			{K: "Elect", M: 0}, {K: "Sync", M: 0}, {K: "Gen", M: 0, Count: 1}, {K: "ResetGroup", M: 0},
 			{K: "Elect", M: 1}, {K: "Sync", M: 1}, {K: "Set", M: 1, TS: far(), Rel: "one-hour-ahead"}, {K: "Gen", M: 1, Count: 100}, {K: "Read"}, {K: "ResetGroup", M: 1},
 			{K: "Elect", M: 0}, {K: "Sync", M: 0}, {K: "State", M: 0}, {K: "Read"}, {K: "Gen", M: 0, Count: 5}, {K: "State", M: 0}, {K: "Read"}},
+		// two accepted resets of 0.7 x max-gap-reset-ts each (the gap is measured against the TSO, so resets add up): the
+		// stored window is then more than the gap ahead of every clock; a successor still has to start above it
+		{{K: "Elect", M: 0}, {K: "Sync", M: 0}, {K: "Read"},
+			{K: "Set", M: 0, TS: compose(time.Now().UnixNano()/1e6+gapMs*7/10, 0), Rel: "0.7-gap-ahead"}, {K: "State", M: 0}, {K: "Read"},
+			{K: "Set", M: 0, TS: compose(time.Now().UnixNano()/1e6+gapMs*14/10, 0), Rel: "1.4-gap-ahead"}, {K: "State", M: 0}, {K: "Read"},
+			{K: "Gen", M: 0, Count: 7}, {K: "Read"}, {K: "ResetGroup", M: 0},
+			{K: "Elect", M: 1}, {K: "Sync", M: 1}, {K: "State", M: 1}, {K: "Read"}, {K: "Gen", M: 1, Count: 1}, {K: "Read"}},
 		// requests that overflow the logical part again and again (each is retried): whatever the request path does about
 		// the overflow, the memory must stay below the stored window
 		{{K: "Elect", M: 0}, {K: "Sync", M: 0}, {K: "Read"},
@@ -1438,6 +1445,55 @@ func localBurstProbe(R *res.Result, prop string) {
 			return
 		}
 		time.Sleep(50 * time.Millisecond)
+	}
+	// concurrent requests on one Local allocator (suffix width >= 1): whatever the server does to serve them together,
+	// the ranges (stride 2^width) are pairwise disjoint and every value carries the allocator's suffix
+	{
+		type rng struct{ p, hi, lo, w int64 }
+		var cmu sync.Mutex
+		var got []rng
+		var cwg sync.WaitGroup
+		for g := 0; g < 6; g++ {
+			cwg.Add(1)
+			go func(g int) {
+				defer cwg.Done()
+				for k := 0; k < 150; k++ {
+					cnt := uint32(1 + (g+k)%5)
+					t, err := am.HandleTSORequest("dc-1", cnt)
+					if err != nil {
+						continue
+					}
+					cmu.Lock()
+					got = append(got, rng{t.Physical, t.Logical, t.Logical - int64(cnt-1)<<t.SuffixBits, int64(t.SuffixBits)})
+					cmu.Unlock()
+				}
+			}(g)
+		}
+		cwg.Wait()
+		R.CountN("local-concurrent:answers", len(got))
+		seenV := map[[2]int64]bool{}
+		sfx := int64(-1)
+	scan:
+		for _, r := range got {
+			for v := r.lo; v <= r.hi; v += 1 << uint(r.w) {
+				if s := v & (1<<uint(r.w) - 1); sfx < 0 {
+					sfx = s
+				} else if s != sfx {
+					R.Violate(prop+":value-with-another-suffix:concurrent-requests-on-a-local-allocator",
+						fmt.Sprintf("concurrent requests on the Local allocator of dc-1: the value (%d,%d) of an answer with suffix width %d carries suffix %d, other answers carry %d", r.p, v, r.w, s, sfx),
+						map[string]interface{}{"physical": r.p, "logical": v, "suffix_bits": r.w})
+					break scan
+				}
+				k := [2]int64{r.p, v}
+				if seenV[k] {
+					R.Violate(prop+":overlapping-ranges:concurrent-requests-on-a-local-allocator",
+						fmt.Sprintf("concurrent requests on the Local allocator of dc-1 (suffix width %d): the value (%d,%d) belongs to two answers", r.w, r.p, v),
+						map[string]interface{}{"physical": r.p, "logical": v, "suffix_bits": r.w})
+					break scan
+				}
+				seenV[k] = true
+			}
+		}
 	}
 	// a dc-location whose members all leave and which comes back: the returning allocator continues above what it
 	// granted, and the stored window of the dc-location never goes back (nor away)
